@@ -11,7 +11,7 @@ from ..domains.frames import FramesDomain, Rot
 from ..domains.units import PX, UnitsDomain
 from ..repo import calls_in, dotted, norm_src, walk_no_nested
 from ..match import Matcher, src as msrc
-from .common import kwarg, need_funcs
+from .common import consumed_after_loop_obligations,  kwarg, need_funcs
 from .C03 import local_assignments
 
 S = "acryo/simulator.py::"
@@ -326,3 +326,9 @@ def check(model, rep, tier):
     tasks_clause(model, rep, funcs)
     accumulation_clause(model, rep, funcs)
     clipping_clause(model, rep, funcs)
+    nc = 0
+    for name in ("_simulate", "_simulate_with_color", "simulate_2d", "simulate_projection", "simulate_tilt_series"):
+        f = funcs.get(S + "TomogramSimulator." + name)
+        if f is not None:
+            nc += consumed_after_loop_obligations(model, rep, f, "3 one task per molecule")
+    rep.floor("S25", 5, "(task pools of the five simulate methods)")
